@@ -134,6 +134,13 @@ func payloads() []payload {
 		{"percent-signs", "S1E 100% cotton, up to 50% S2E", 2, "", false, "100% cotton, up to 50%"},
 		{"percent-at-end", "S1E S2E up to 50%", 2, "", false, "up to 50%"},
 		{"format-directives", "S1E %s %d %v %[1]s %% %!x(MISSING) S2E %", 2, "", false, "%s %d %v %[1]s %% %!x(MISSING)"},
+		// character data that reaches the parser in several pieces: a comment or an author-written CDATA section in the middle of
+		// the text, CDATA followed by a line break (an error is an acceptable outcome where the XML layer refuses the construct)
+		{"comment-inside", "S1E <!-- note --> S2E", 2, "", false, ""},
+		{"two-comments-inside", "<!-- a -->S1E<!-- b --> S2E <!-- c -->", 2, "", false, ""},
+		{"cdata-inside", "S1E <![CDATA[S2E <now> &]]> S3E", 3, "<now>", false, ""},
+		{"cdata-then-newline", "<![CDATA[S1E & S2E]]>\n", 2, "", false, ""},
+		{"cdata-only", "<![CDATA[S1E]]>", 1, "", false, ""},
 		{"link", `S1E <a href="http://x/l?a=1&amp;b=2">S2E</a>`, 2, "", true, ""},
 		{"escaped-markup", "&lt;b&gt;S1E&lt;/b&gt;", 1, "<b>S1E</b>", false, ""},
 		{"numeric-lt", "S1E &#60;i&#62;S2E", 2, "<i>S2E", false, ""},
@@ -154,7 +161,7 @@ func payloads() []payload {
 var sentRe = regexp.MustCompile(`S(\d+)E`)
 
 func runC04(res *Result, tier string, seed int64, replay string) {
-	res.Rule = "(1) content matrix, EXHAUSTIVE: 18 content slots (text, button, table cell, raw, navbar link, social element — horizontal, vertical, without a known network —, accordion title / text — also the first of two —, raw content between the children of navbar / social / accordion / accordion element (where MJML allows mj-raw), title, preview) × 9 placements (column, second column, group, hero, wrapper, middle of three sections, after a chaining section, background-image section, full-width section) × 27 payloads (plain, percent signs and format directives (also as the last character), inline / nested markup, every compact arrangement of text runs and inline elements (element first, lone text run behind / between elements, elements only), link with &amp;, escaped markup &lt;b&gt;, numeric and hex character references for '<', &amp;, HTML named entities, quotes, <br/>, non-ASCII letters whose case folding changes their byte length, character data whose decoded value looks like a character reference), unique sentinels in reading order; + size payloads in every slot (one unbroken 70 KB token, 70 KB of white space or line breaks, 300 KB of words, 72 KB of CJK text, a 96 KB data URI inside markup); the Lean oracle on the real bytes says which sentinels standard clients see (in order) and which sit only in Outlook blocks; escaped markup must not come out as markup; a document that loses content must return an error. (2) the layout documents of C02/C03 with a sentinel in every slot. Non-trivial = every cell; distinct by (slot, placement, payload)"
+	res.Rule = "(1) content matrix, EXHAUSTIVE: 18 content slots (text, button, table cell, raw, navbar link, social element — horizontal, vertical, without a known network —, accordion title / text — also the first of two —, raw content between the children of navbar / social / accordion / accordion element (where MJML allows mj-raw), title, preview) × 9 placements (column, second column, group, hero, wrapper, middle of three sections, after a chaining section, background-image section, full-width section) × 32 payloads (plain, text interrupted by comments or by author-written CDATA sections, percent signs and format directives (also as the last character), inline / nested markup, every compact arrangement of text runs and inline elements (element first, lone text run behind / between elements, elements only), link with &amp;, escaped markup &lt;b&gt;, numeric and hex character references for '<', &amp;, HTML named entities, quotes, <br/>, non-ASCII letters whose case folding changes their byte length, character data whose decoded value looks like a character reference), unique sentinels in reading order; + size payloads in every slot (one unbroken 70 KB token, 70 KB of white space or line breaks, 300 KB of words, 72 KB of CJK text, a 96 KB data URI inside markup); the Lean oracle on the real bytes says which sentinels standard clients see (in order) and which sit only in Outlook blocks; escaped markup must not come out as markup; a document that loses content must return an error. (2) the layout documents of C02/C03 with a sentinel in every slot. Non-trivial = every cell; distinct by (slot, placement, payload)"
 	drv, err := startDriverPool(12)
 	if err != nil {
 		res.Disagree(Violation{Sig: "driver-missing", What: err.Error()})
@@ -280,7 +287,10 @@ func runC04(res *Result, tier string, seed int64, replay string) {
 				clause = "content-order"
 			}
 		}
-		if clause == "" && c.pl.escaped != "" && strings.Contains(html, c.pl.escaped) {
+		// (in the raw-HTML slots — mj-text, mj-raw — an author-written CDATA section is author markup like any other: what it
+		// contains is copied, not escaped)
+		rawHTMLSlot := c.s.name == "text" || c.s.name == "raw" || strings.HasPrefix(c.s.name, "raw-in-")
+		if clause == "" && c.pl.escaped != "" && strings.Contains(html, c.pl.escaped) && !(rawHTMLSlot && strings.HasPrefix(c.pl.name, "cdata")) {
 			clause = "chardata-became-markup"
 		}
 		if clause == "" && c.pl.verbatim != "" && !strings.Contains(html, c.pl.verbatim) {
